@@ -7,6 +7,7 @@
 #include "c20_tables.inc"
 #include "c20_values.inc"
 #include "c20_ipf.inc"
+#include "c20_traits.inc"
 
 using namespace c20;
 
@@ -196,6 +197,42 @@ bool vh::run_case(std::string const& op, Toks& in, Out& impl, Out& ref)
         if (v.size() != 6) { return false; }
         op_tcatmix<EtlLib>(v, impl);
         op_tcatmix<StdLib>(v, ref);
+        return true;
+    }
+    if (op == "ptraits") {
+        int e1 = i(), e2 = i();
+        op_ptraits<EtlLib>(e1, e2, impl);
+        op_ptraits<StdLib>(e1, e2, ref);
+        return true;
+    }
+    if (op == "ttraits") {
+        int n = i();
+        int e1 = n >= 1 ? i() : 0, e2 = n >= 2 ? i() : 0, e3 = n >= 3 ? i() : 0;
+        if (n < 0 || n > 3 || (n == 3 && e3 != 0 && e3 != 2 && e3 != 5)) { return false; }
+        op_ttraits<EtlLib>(n, e1, e2, e3, impl);
+        op_ttraits<StdLib>(n, e1, e2, e3, ref);
+        return true;
+    }
+    if (op == "retref") {
+        int which = i();
+        op_retref<EtlLib>(which, impl);
+        op_retref<StdLib>(which, ref);
+        return true;
+    }
+    if (op == "refwrapops") {
+        auto x = in.num(), y = in.num();
+        op_refwrapops<EtlLib>(x, y, impl);
+        op_refwrapops<StdLib>(x, y, ref);
+        return true;
+    }
+    if (op == "frefops") {
+        op_frefops(in.num(), impl);
+        return true; // no std::function_ref in libstdc++ 12
+    }
+    if (op == "notfnstatic") {
+        auto x = in.num();
+        op_notfn_static<EtlLib>(x, impl);
+        op_notfn_static<StdLib>(x, ref);
         return true;
     }
     if (op == "ipf") {
